@@ -271,7 +271,9 @@ MLSX_LINES = ["Size=12;Create=20010101000000;Modify=20010101000000;Type=file; a.
 
 _NUM = re.compile(rb"\d+")
 _WIN_NAME = re.compile(r"^\S+\s+\S+\s+[AP]M\s+(?:<DIR>|[\d,]+)\s*(.*?)\s*$")
-_UNIX_NAME = re.compile(r"^\S+\s+\S+\s+\S+\s+\S+\s+\S+\s+\S+\s+\S+\s+\S+(?: (.*))?$")
+# (the name follows the first plain blank after the eighth column; control characters that count as
+# white space - \x1c..\x1f, \t ... - in front of that blank belong to the separator, as they do for the client)
+_UNIX_NAME = re.compile(r"^\S+\s+\S+\s+\S+\s+\S+\s+\S+\s+\S+\s+\S+\s+\S+(?:[^\S ]* (.*))?$")
 
 
 def _line_name(family, ln):
